@@ -3,6 +3,9 @@ import TextxVerif.Proofs.RrelPath
 import TextxVerif.Proofs.RrelFuel
 import TextxVerif.Proofs.RrelTerm
 import TextxVerif.RrelProvider
+import TextxVerif.Proofs.RrelAnc
+import TextxVerif.Proofs.RrelCore
+import TextxVerif.Proofs.RrelSyntaxRange
 /-!
 # C11 — RREL reference resolution follows the documented expression semantics
 
@@ -185,6 +188,235 @@ theorem C11_provider (p : Provider) (n : Nat) (pre post : List (Heap × Call)) (
   · intro W hid hW
     exact C11_complete H n p.paths c.o _ c.cls W hid hW
 
+/-! ## expression trees as written: no hypothesis on node identities
+
+`C11_complete`, `C11_precedence` and `C11_resolves` assume `hid`: the node identities of the
+core expression are pairwise distinct.  `RrelSyntax.toCore` (TextxVerif/RrelCore.lean) reads an
+object tree of `RREL*` nodes — what `rrel.parse` returns — as core alternatives, numbering the
+nodes in preorder; `toCore_nodup` discharges `hid` for every tree, and `C11_parsed_core` shows
+that every text `rrel.parse` accepts has such a core.  The correspondence check compares `toCore`
+of the dumped object tree with the identities `id(node)` of the real objects (op `find`,
+field `surface`). -/
+
+open RrelSyntax in
+/-- every text accepted by `rrel.parse` yields a tree with a core: at least one alternative,
+node identities pairwise distinct -/
+theorem C11_parsed_core (cc : CC) (s : Str) (e : Expr) (hp : parse cc s = some e) :
+    ∃ ps, toCore e = some ps ∧ ps ≠ [] ∧ (ps.flatMap E.ids).Nodup := by
+  have hg := parse_sound hp
+  have hc : (toCore e).isSome = true := toCore_isSome e hg
+  obtain ⟨ps, hps⟩ := Option.isSome_iff_exists.mp hc
+  refine ⟨ps, hps, coreTop_ne_nil e.seq 0 ps hps ?_, toCore_nodup e ps hps⟩
+  simp only [gwfExpr, gwfSeq, Bool.and_eq_true, Bool.not_eq_true', List.isEmpty_eq_false_iff] at hg
+  exact hg.2.2
+
+open RrelSyntax in
+/-- **Completeness for expression trees** (`C11_complete` without `hid`). -/
+theorem C11_complete_tree (H : Heap) (n : Nat) (e : Expr) (ps : List E) (hc : toCore e = some ps)
+    (o : Obj) (ns : List String) (cls : Option String) (W : Vis)
+    (h : find H n ps o ns cls = .cont W) :
+    ∀ p ∈ ps, ¬ ∃ t, Exp H p true (start o ns) t ∧ IsMatch H cls t :=
+  C11_complete H n ps o ns cls W (toCore_nodup e ps hc) h
+
+open RrelSyntax in
+/-- **Precedence for expression trees** (`C11_precedence` without `hid`). -/
+theorem C11_precedence_tree (H : Heap) (n : Nat) (e : Expr) (ps : List E) (hc : toCore e = some ps)
+    (o : Obj) (ns : List String) (cls : Option String) (r : St)
+    (h : find H n ps o ns cls = .found r) :
+    ∃ pre p post, ps = pre ++ p :: post ∧ Exp H p true (start o ns) r ∧ IsMatch H cls r ∧
+      ∀ q ∈ pre, ¬ ∃ t, Exp H q true (start o ns) t ∧ IsMatch H cls t :=
+  C11_precedence H n ps o ns cls r (toCore_nodup e ps hc) h
+
+open RrelSyntax in
+/-- **A reference resolves whenever a matching object exists, for expression trees**
+(`C11_resolves` without `hid`). -/
+theorem C11_resolves_tree (H : Heap) (U : List Obj) (hU : FinHeap H U) (n : Nat) (e : Expr)
+    (ps : List E) (hc : toCore e = some ps) (o : Obj) (ho : o ∈ U) (ns : List String)
+    (cls : Option String) (hn : fuelBound U ns ps ≤ n) (hres : ∀ o a, H.attr o a ≠ none)
+    (hex : ∃ p ∈ ps, ∃ t, Exp H p true (start o ns) t ∧ IsMatch H cls t) :
+    ∃ r, find H n ps o ns cls = .found r :=
+  C11_resolves H U hU n ps o ho ns cls hn (toCore_nodup e ps hc) hres hex
+
+open RrelSyntax in
+/-- **What `rrel.find` with an expression tree answers** (`evalExpr`: the tree's core, `+m:`
+deciding whether the other models are searched, `+p:` whether a proxy is returned).
+An object / a proxy ⇒ the object is reached by one expansion of an alternative, has consumed
+every name part, conforms, the named objects carry the name parts, and the proxy's path is the
+list of named objects, extended by the target if it does not end in it.  Unknown ⇒ no
+alternative has a matching expansion.  No hypothesis about node identities. -/
+theorem C11_expr (H : Heap) (n : Nat) (e : Expr) (o : Obj) (ns : List String) (cls : Option String)
+    (a : Answer) (h : evalExpr H n e o ns cls = some a) :
+    ∃ ps, toCore e = some ps ∧
+      (∀ t, a = .obj t → e.useProxy = false ∧ ∃ r : St, r.o = t ∧
+        (∃ p ∈ ps, Exp (heapFor H e) p true (start o ns) r) ∧ IsMatch (heapFor H e) cls r ∧
+        NamedBy (heapFor H e) r.path ns) ∧
+      (∀ path, a = .proxy path → e.useProxy = true ∧ ∃ r : St,
+        (∃ p ∈ ps, Exp (heapFor H e) p true (start o ns) r) ∧ IsMatch (heapFor H e) cls r ∧
+        NamedBy (heapFor H e) r.path ns ∧ path.getLast? = some r.o ∧
+        (path = r.path ∨ path = r.path ++ [r.o])) ∧
+      (a = .unknown → ∀ p ∈ ps, ¬ ∃ t, Exp (heapFor H e) p true (start o ns) t ∧
+        IsMatch (heapFor H e) cls t) := by
+  simp only [evalExpr, Option.map_eq_some_iff] at h
+  obtain ⟨ps, hps, ha⟩ := h
+  refine ⟨ps, hps, ?_, ?_, ?_⟩
+  · intro t ht
+    subst ht
+    cases hf : find (heapFor H e) n ps o ns cls with
+    | found r =>
+      rw [hf] at ha
+      simp only [answerOf] at ha
+      split at ha
+      · cases ha
+      · rename_i hp
+        simp only [Answer.obj.injEq] at ha
+        obtain ⟨h1, h2, h3, h4⟩ := C11_sound _ n ps o ns cls r hf
+        exact ⟨by simpa using hp, r, ha, h1, ⟨h2, h3⟩, h4⟩
+    | cont W => rw [hf] at ha; cases ha
+    | postponed => rw [hf] at ha; cases ha
+    | fuel => rw [hf] at ha; cases ha
+  · intro path ht
+    subst ht
+    cases hf : find (heapFor H e) n ps o ns cls with
+    | found r =>
+      rw [hf] at ha
+      simp only [answerOf] at ha
+      split at ha
+      · rename_i hp
+        simp only [Answer.proxy.injEq] at ha
+        obtain ⟨h1, h2, h3, h4⟩ := C11_sound _ n ps o ns cls r hf
+        obtain ⟨h5, h6, _⟩ := C11_path _ n ps o ns cls r hf
+        rw [ha] at h5 h6
+        exact ⟨hp, r, h1, ⟨h2, h3⟩, h4, h5, h6⟩
+      · cases ha
+    | cont W => rw [hf] at ha; cases ha
+    | postponed => rw [hf] at ha; cases ha
+    | fuel => rw [hf] at ha; cases ha
+  · intro hu
+    subst hu
+    cases hf : find (heapFor H e) n ps o ns cls with
+    | found r =>
+      rw [hf] at ha
+      simp only [answerOf] at ha
+      split at ha <;> cases ha
+    | cont W => exact C11_complete_tree _ n e ps hps o ns cls W hf
+    | postponed => rw [hf] at ha; cases ha
+    | fuel => rw [hf] at ha; cases ha
+
+/-! ## what `anc` and `root` mean
+
+`anc` walks up at most `H.depth` times; the specification (`AtomStep` for `parent(T)` and the
+dots, `root` for leading navigation steps and `*`) uses the same function.  On a finite heap
+`U` (closed under `parent`) with acyclic parent chains and `U.length ≤ H.depth` — the driver's
+heaps: `depth` = number of objects — the bound is never reached, and `anc` / `root` have a
+meaning that does not mention fuel. -/
+
+/-- **Ancestors.** `anc H o` lists exactly the strict ancestors of `o`
+(transitive closure of `parent`). -/
+theorem C11_anc_spec (H : Heap) (U : List Obj) (hU : FinHeap H U) (hd : U.length ≤ H.depth)
+    (hac : Acyclic H) (o : Obj) (ho : o ∈ U) (p : Obj) :
+    p ∈ anc H o ↔ Relation.TransGen (ParentOf H) o p :=
+  mem_anc_iff hU hd hac o ho p
+
+/-- **Order of the ancestors**: nearest first — the fuel-free reading of
+`while hasattr(obj, "parent"): obj = obj.parent`; the `k`-th entry is the `(k+1)`-fold parent,
+and there is none exactly when the chain ends before. -/
+theorem C11_anc_order (H : Heap) (U : List Obj) (hU : FinHeap H U) (hd : U.length ≤ H.depth)
+    (hac : Acyclic H) (o : Obj) (ho : o ∈ U) :
+    (anc H o = match H.parent o with
+      | none => []
+      | some p => p :: anc H p) ∧
+    ∀ k, (anc H o)[k]? = parentIter H (k+1) o :=
+  ⟨anc_unfold hU hd hac o ho, anc_getElem hU hd hac o ho⟩
+
+/-- **Model root.** `root H o` (`get_model(obj)`) has no parent and is `o` itself or an
+ancestor of `o`. -/
+theorem C11_root_spec (H : Heap) (U : List Obj) (hU : FinHeap H U) (hd : U.length ≤ H.depth)
+    (hac : Acyclic H) (o : Obj) (ho : o ∈ U) :
+    H.parent (root H o) = none ∧ (root H o = o ∨ Relation.TransGen (ParentOf H) o (root H o)) :=
+  root_spec hU hd hac o ho
+
+/-- **Dots.** The specification of `.`×n (`AtomStep … (.dots n)`) says: the object itself for
+`n ≤ 1`, else the `(n-1)`-fold parent — no truncation. -/
+theorem C11_dots_spec (H : Heap) (U : List Obj) (hU : FinHeap H U) (hd : U.length ≤ H.depth)
+    (hac : Acyclic H) (o : Obj) (ho : o ∈ U) (n : Nat) (first : Bool) (ns : List String)
+    (r : Obj × List String × Bool) :
+    AtomStep H (.dots n) first o ns r ↔
+      parentIter H (n - 1) o = some r.1 ∧ r.2.1 = ns ∧ r.2.2 = false := by
+  simp only [AtomStep]
+  rcases Nat.lt_or_ge n 2 with hn | hn
+  · have h0 : n - 1 = 0 := by omega
+    rw [h0]
+    simp only [parentIter, Option.some.injEq]
+    constructor
+    · rintro ⟨h | h, h2⟩
+      · exact ⟨h.2.symm, h2⟩
+      · omega
+    · rintro ⟨h1, h2⟩
+      exact ⟨Or.inl ⟨by omega, h1.symm⟩, h2⟩
+  · have h1 : n - 1 = (n - 2) + 1 := by omega
+    rw [h1, ← anc_getElem hU hd hac o ho (n - 2)]
+    constructor
+    · rintro ⟨h | h, h2⟩
+      · omega
+      · exact ⟨h.2, h2⟩
+    · rintro ⟨h1, h2⟩
+      exact ⟨Or.inr ⟨hn, h1⟩, h2⟩
+
+/-- **`parent(T)`.** The specification of `parent(T)` says: the nearest strict ancestor that
+conforms to `T` — an ancestor conforming to `T` such that no ancestor strictly between conforms. -/
+theorem C11_parent_spec (H : Heap) (U : List Obj) (hU : FinHeap H U) (hd : U.length ≤ H.depth)
+    (hac : Acyclic H) (o : Obj) (ho : o ∈ U) (T : String) (first : Bool) (ns : List String)
+    (r : Obj × List String × Bool) :
+    AtomStep H (.parent T) first o ns r ↔
+      (∃ k, parentIter H (k+1) o = some r.1 ∧ H.conf r.1 T = true ∧
+        ∀ j, j < k → ∀ q, parentIter H (j+1) o = some q → H.conf q T = false) ∧
+      r.2.1 = ns ∧ r.2.2 = false := by
+  simp only [AtomStep]
+  have hget := anc_getElem hU hd hac o ho
+  constructor
+  · rintro ⟨pre, post, happ, hpre, hc, h1, h2⟩
+    refine ⟨⟨pre.length, ?_, hc, ?_⟩, h1, h2⟩
+    · rw [← hget, happ]; simp
+    · intro j hj q hq
+      rw [← hget, happ, List.getElem?_append_left hj] at hq
+      exact hpre q (List.mem_of_getElem? hq)
+  · rintro ⟨⟨k, hk, hc, hlt⟩, h1, h2⟩
+    rw [← hget] at hk
+    obtain ⟨hlen, hk'⟩ := List.getElem?_eq_some_iff.mp hk
+    refine ⟨(anc H o).take k, (anc H o).drop (k+1), ?_, ?_, hc, h1, h2⟩
+    · rw [← hk']
+      simp
+    · intro q hq
+      obtain ⟨j, hj, hjq⟩ := List.getElem_of_mem hq
+      have hjk : j < k := by simpa using (Nat.lt_of_lt_of_le hj (List.length_take_le _ _))
+      refine hlt j hjk q ?_
+      rw [← hget]
+      rw [List.getElem_take] at hjq
+      rw [← hjq]
+      exact List.getElem?_eq_getElem _
+
+/-- **The `+m:` start list** (`starts`, shared by model and specification), relationally: the
+source itself comes first; the other models follow exactly when the source is a model root. -/
+theorem C11_starts_spec (H : Heap) (src : Obj) :
+    (starts H src).head? = some src ∧
+    ∀ x, x ∈ starts H src ↔ x = src ∨ (H.parent src = none ∧ x ∈ H.extra) := by
+  simp only [starts]
+  cases hp : H.parent src with
+  | none => simp
+  | some p => simp
+
+/-- **What `*` reaches without a repetition** (`zeros`, shared by model and specification),
+relationally: later in a path the object itself; as the first element the object itself if the
+body can start locally (`parent(T)`, dots) and the model root if it can start with a navigation
+step. -/
+theorem C11_zeros_spec (H : Heap) (e : E) (first : Bool) (s t : St) :
+    t ∈ zeros H e first s ↔
+      (first = false ∧ t = s) ∨
+      (first = true ∧ ((e.startLocal = true ∧ t = s) ∨
+        (e.startRoot = true ∧ t = { s with o := root H s.o }))) := by
+  simp only [zeros]
+  cases first <;> cases e.startLocal <;> cases e.startRoot <;> simp
+
 /-! ## non-vacuity -/
 
 /-- root 0 with `a = [1, 2, 3]`; 1 = `A x`, 2 = `B x`, 3 = `A y` with `a = [4]`, `r = 2`;
@@ -286,6 +518,33 @@ example (h1 : splitName "y.x" "." = ["y", "x"]) (h2 : splitName "y::x" "::" = ["
       (fun r => match r with | .found s => some s.o | _ => none) = [some 4, some 4, none, some 4] := by
   simp only [Provider.run, Provider.call, Provider.delim, exP, h1, h2, h3]
   decide
+
+/-- the example heap has acyclic parent chains (rank: root 0, its children 1, object 4 below 3) and
+`depth` covers its five objects: the hypotheses of `C11_anc_spec` … `C11_parent_spec` hold -/
+example : Acyclic exH :=
+  acyclic_of_rank exH (fun o => if o = 0 then 0 else if o ≤ 3 then 1 else 2) (by
+    intro a b h
+    simp only [exH] at h
+    split at h
+    · cases h
+    · split at h
+      · cases h; simp_all
+      · split at h
+        · cases h; split <;> simp_all
+        · cases h)
+example : [0, 1, 2, 3, 4].length ≤ exH.depth := by decide
+example : anc exH 4 = [3, 0] ∧ root exH 4 = 0 ∧ parentIter exH 2 4 = some 0 ∧ parentIter exH 3 4 = none := by
+  decide
+
+open RrelSyntax in
+/-- `^a` as an expression tree: its core is the hand-written core of the example above
+(identities 0 … 3), found without any hypothesis on identities -/
+example : toCore ⟨[[.star [[.dots 2]], .nav ['a'] true none]], []⟩ =
+    some [.cat (.star 0 (.grp 1 (.atom 2 (.dots 2)))) (.atom 3 (.nav "a" .consume))] := by decide
+
+open RrelSyntax in
+example : evalExpr exH 9 ⟨[[.star [[.dots 2]], .nav ['a'] true none]], ['p']⟩ 4 ["x"] (some "B") =
+    some (.proxy [4]) := by decide
 
 #guard splitName "y.x" "." == ["y", "x"]
 #guard splitName "y::x" "::" == ["y", "x"]
